@@ -128,6 +128,7 @@ type Term struct {
 	id   int
 	vars []*Term // variables occurring in the term (nil + manyVars when more than maxTermVars)
 	many bool
+	fp   bool // some sub-term has a floating-point sort
 }
 
 const maxTermVars = 3
@@ -174,6 +175,14 @@ func (tb *termTable) mk(t *Term) *Term {
 	t.id = tb.next
 	tb.next++
 	tb.m[k] = t
+	if t.sort.k == sF64 || t.sort.k == sF32 {
+		t.fp = true
+	}
+	for _, a := range t.args {
+		if a.fp {
+			t.fp = true
+		}
+	}
 	// variable set
 	if t.op == opVar {
 		t.vars = []*Term{t}
